@@ -507,13 +507,14 @@ type cfgObs struct {
 	Roots    []int // nil: RootCAs == nil ; otherwise ids of the harness authorities in the pool
 	HasRoots bool
 	NCerts   int
+	Other    int // bit mask of the other tls.Config fields that are set (see other.go)
 }
 
 func (p *pki) obs(c *tls.Config) *cfgObs {
 	if c == nil {
 		return nil
 	}
-	o := &cfgObs{Insecure: c.InsecureSkipVerify, Name: c.ServerName, NCerts: len(c.Certificates)}
+	o := &cfgObs{Insecure: c.InsecureSkipVerify, Name: c.ServerName, NCerts: len(c.Certificates), Other: otherMask(c)}
 	if c.RootCAs != nil {
 		o.HasRoots = true
 		o.Roots = p.poolIDs(c.RootCAs)
@@ -537,14 +538,14 @@ func obsTermBare(o *cfgObs) string {
 		}
 		roots = hlib.Some(hlib.ZListI(ids))
 	}
-	return fmt.Sprintf("(mkObs %s %s %s %d)", hlib.Bool(o.Insecure), hlib.ZList([]byte(o.Name)), roots, o.NCerts)
+	return fmt.Sprintf("(mkObs %s %s %s %d %d)", hlib.Bool(o.Insecure), hlib.ZList([]byte(o.Name)), roots, o.NCerts, o.Other)
 }
 
 func obsEq(a, b *cfgObs) bool {
 	if a == nil || b == nil {
 		return a == b
 	}
-	if a.Insecure != b.Insecure || a.Name != b.Name || a.HasRoots != b.HasRoots || a.NCerts != b.NCerts || len(a.Roots) != len(b.Roots) {
+	if a.Insecure != b.Insecure || a.Name != b.Name || a.HasRoots != b.HasRoots || a.NCerts != b.NCerts || a.Other != b.Other || len(a.Roots) != len(b.Roots) {
 		return false
 	}
 	for i := range a.Roots {
@@ -623,13 +624,15 @@ type sslCase struct {
 	hv        bool
 	ca        caFile
 	kp        kpFile
+	other     int // other tls.Config fields set on the caller's config
 }
 
 func (p *pki) buildConfig(sc sslCase) *tls.Config {
 	if sc.configNil {
 		return nil
 	}
-	c := &tls.Config{InsecureSkipVerify: sc.insecure, ServerName: sc.name, MinVersion: tls.VersionTLS12}
+	c := &tls.Config{InsecureSkipVerify: sc.insecure, ServerName: sc.name}
+	applyOther(c, sc.other)
 	if sc.hasRoots {
 		c.RootCAs = x509.NewCertPool()
 		for _, id := range sc.roots {
@@ -773,6 +776,9 @@ func main() {
 									if sh.hasRoots {
 										sc.roots = pl
 									}
+									if !sh.configNil && r.Chance(50) {
+										sc.other = randMask(r)
+									}
 									sslCases = append(sslCases, sc)
 								}
 							}
@@ -782,8 +788,47 @@ func main() {
 			}
 		}
 	}
+	// the OTHER fields of the caller's tls.Config: the decision must not consult any of them.  Every
+	// (InsecureSkipVerify x ServerName x RootCAs x EnableHostVerification) combination with each other field
+	// set alone, with all of them set, and with two random subsets.
+	nOtherCases := 0
+	for _, sh := range shapes {
+		if sh.configNil {
+			continue
+		}
+		for _, hv := range []bool{false, true} {
+			masks := []int{}
+			for b := 0; b < nOther; b++ {
+				masks = append(masks, 1<<b)
+			}
+			masks = append(masks, 1<<nOther-1, randMask(r), randMask(r))
+			caClasses := []int{r.Intn(2)} // absent or valid
+			if thorough {
+				caClasses = []int{0, 1, 2, 3}
+			}
+			for _, m := range masks {
+				for _, cac := range caClasses {
+					sc := sslCase{insecure: sh.insecure, hasRoots: sh.hasRoots, hv: hv, other: m,
+						ca: byClassCA[cac][r.Intn(len(byClassCA[cac]))], kp: byClassKP[0][0]}
+					if r.Chance(20) {
+						sc.kp = byClassKP[3][0]
+					}
+					if sh.named {
+						sc.name = "explicit.example"
+					}
+					if sh.hasRoots {
+						sc.roots = poolChoices[r.Intn(len(poolChoices))]
+					}
+					sslCases = append(sslCases, sc)
+					nOtherCases++
+				}
+			}
+		}
+	}
 	o.Extra["exhaustive"] = true
 	o.Extra["tls_option_combinations"] = len(shapes) * 2 * 4 * 5
+	o.Extra["other_tls_config_fields_varied"] = otherNames
+	o.Extra["other_field_cases"] = nOtherCases
 	for _, sc := range sslCases {
 		opts, caller := p.sslOptions(sc)
 		before := p.obs(caller)
@@ -799,7 +844,7 @@ func main() {
 		nontrivial := !sc.configNil || sc.ca.path != "" || sc.kp.cert != "" || sc.kp.key != ""
 		idx := o.Case("setup/ca-"+[]string{"absent", "valid", "unreadable", "garbage"}[sc.ca.class]+"/keypair-"+[]string{"absent", "cert-only", "key-only", "valid", "invalid"}[sc.kp.class], nontrivial, fmt.Sprintf("CSetup %s %d %s %s %s", p.sslTerm(sc, before), code, obsTerm(resObs), hlib.Bool(aliased), obsTerm(after)))
 		in := map[string]interface{}{"config_nil": sc.configNil, "insecure_skip_verify": sc.insecure, "server_name": sc.name, "root_cas": sc.roots, "has_root_cas": sc.hasRoots,
-			"enable_host_verification": sc.hv, "ca": sc.ca.kind, "keypair": sc.kp.kind}
+			"enable_host_verification": sc.hv, "ca": sc.ca.kind, "keypair": sc.kp.kind, "other_fields_set": otherFieldNames(sc.other)}
 		// --- monitors (spec side, on the implementation's outputs only)
 		if code == 9 {
 			o.Violate(idx, "setup-unknown-error", "", fmt.Sprintf("unclassified error %v", err), in)
@@ -811,6 +856,16 @@ func main() {
 			}
 			if want := documented(sc.configNil, sc.insecure, sc.hv); (!res.InsecureSkipVerify) != want {
 				o.Violate(idx, "documented-table", "", fmt.Sprintf("documented result verify=%v, effective InsecureSkipVerify=%v", want, res.InsecureSkipVerify), in)
+			}
+			// the fields the table does not mention travel unchanged (none set when Config is nil)
+			if caller != nil {
+				if otherMask(res) != otherMask(caller) {
+					o.Violate(idx, "other-fields-copied", "", fmt.Sprintf("other fields set on the caller's config %v, on the result %v", otherFieldNames(otherMask(caller)), otherFieldNames(otherMask(res))), in)
+				} else if d := otherValuesDiff(caller, res); d != "" {
+					o.Violate(idx, "other-fields-copied", "", d, in)
+				}
+			} else if otherMask(res) != 0 {
+				o.Violate(idx, "other-fields-copied", "", fmt.Sprintf("Config is nil, yet the result has %v set", otherFieldNames(otherMask(res))), in)
 			}
 			if res.ServerName != sc.name {
 				o.Violate(idx, "setup-server-name", "", fmt.Sprintf("ServerName %q became %q", sc.name, res.ServerName), in)
@@ -872,6 +927,9 @@ func main() {
 			for _, hr := range []bool{false, true} {
 				for _, addr := range addrs {
 					sc := sslCase{insecure: ins, name: name, hasRoots: hr, roots: []int{1}, ncerts: 1}
+					if r.Chance(50) {
+						sc.other = randMask(r)
+					}
 					caller := p.buildConfig(sc)
 					before := p.obs(caller)
 					res := gocql.VerifC20TLSConfigForAddr(caller, addr)
@@ -881,6 +939,9 @@ func main() {
 					in := map[string]interface{}{"insecure_skip_verify": ins, "server_name": name, "addr": addr}
 					if !obsEq(before, after) {
 						o.Violate(idx, "caller-config-untouched", "", fmt.Sprintf("tlsConfigForAddr changed its argument: %+v -> %+v", *before, *after), in)
+					}
+					if otherMask(res) != sc.other || otherValuesDiff(caller, res) != "" {
+						o.Violate(idx, "other-fields-copied", "", fmt.Sprintf("tlsConfigForAddr: other fields %v became %v", otherFieldNames(sc.other), otherFieldNames(otherMask(res))), in)
 					}
 					if res.InsecureSkipVerify != ins {
 						o.Violate(idx, "for-addr-verification-changed", "", "InsecureSkipVerify differs from the input's", in)
@@ -893,7 +954,8 @@ func main() {
 					}
 					if !ins && name == "" {
 						// the host part of host:port as net.SplitHostPort sees it (where it is well-formed)
-						if h, _, err := net.SplitHostPort(addr); err == nil {
+						// (only addresses net.JoinHostPort produces: "[a]:1" is not the dialled form of host "a")
+						if h, pt, err := net.SplitHostPort(addr); err == nil && net.JoinHostPort(h, pt) == addr {
 							want := h
 							if strings.Contains(h, ":") {
 								want = "[" + h + "]"
@@ -943,6 +1005,9 @@ func main() {
 							continue
 						}
 						sc := sslCase{insecure: ins, name: name, hasRoots: roots != nil, roots: roots}
+						if r.Chance(40) {
+							sc.other = randMask(r)
+						}
 						caller := p.buildConfig(sc)
 						before := p.obs(caller)
 						addr := gocql.VerifC20HostnameAndPort(hf.hostname, hf.ip, 9042)
@@ -950,7 +1015,7 @@ func main() {
 						after := p.obs(caller)
 						wrapN++
 						idx := o.Case("wrap-tls", true, fmt.Sprintf("CWrap %s %s %d %s %s %s %s", obsTerm(before), hlib.ZList([]byte(addr)), sv.issuer, strListTerm(sv.names), hlib.Bool(ok), hlib.Bool(wrapped), obsTerm(after)))
-						in := map[string]interface{}{"insecure_skip_verify": ins, "server_name": name, "root_cas": roots, "addr": addr, "server_cert": sv.kind}
+						in := map[string]interface{}{"insecure_skip_verify": ins, "server_name": name, "root_cas": roots, "addr": addr, "server_cert": sv.kind, "other_fields_set": otherFieldNames(sc.other)}
 						if !obsEq(before, after) {
 							o.Violate(idx, "caller-config-untouched", "", fmt.Sprintf("WrapTLS changed the caller's config %+v -> %+v", *before, *after), in)
 						}
@@ -1256,6 +1321,9 @@ func main() {
 				if r.Chance(15) {
 					sc.kp = kpVariants[r.Intn(len(kpVariants))]
 				}
+				if !sh.configNil && r.Chance(50) {
+					sc.other = randMask(r)
+				}
 				c := sc
 				chainSSL = append(chainSSL, &c)
 			}
@@ -1287,6 +1355,23 @@ func main() {
 	sessionRuns(o, p, okClass, badClass, plainToken)
 
 	o.Finish("From GocqlV Require Import Lib.Base C20.Model C20.Corr.", "C20.Corr.case", "C20.Corr.run")
+}
+
+// a random subset of the other tls.Config fields; the callbacks (which users combine with InsecureSkipVerify)
+// are over-represented
+func randMask(r *hlib.Rng) int {
+	m := 0
+	switch r.Intn(4) {
+	case 0:
+		m = 1 << r.Intn(nOther)
+	case 1:
+		m = r.Intn(1 << nOther)
+	case 2:
+		m = 1<<0 | r.Intn(1<<nOther)
+	default:
+		m = (1 + r.Intn(3)) | (r.Intn(1<<nOther) & r.Intn(1<<nOther))
+	}
+	return m
 }
 
 func sortInts(l []int) {
